@@ -44,7 +44,7 @@ def is_subseq(small, big):
     return all(x in it for x in small)
 
 
-def judge_stream(ctx, data, kind):
+def judge_stream(ctx, data, kind, arrays=True):
     case = lambda: {'kind': 'stream', 'bytes': list(data), 'via': kind}  # noqa: E731
     key = kind
     # --- whole-stream paths
@@ -123,6 +123,23 @@ def judge_stream(ctx, data, kind):
                       f'chunked-differs:{cont.__name__}', case,
                       lambda: {'cut': cut, 'container': cont.__name__, 'got': [m.hex() for m in got][:8],
                                'want': [m.hex() for m in out3][:8]})
+    # integers 0..255 in containers whose items are wider than a byte; clocks that jump between calls
+    if arrays and (len(data) <= 64 or kind != 'enum'):
+        import array
+        for code in (('H', 'B') if kind == 'enum' else ('H', 'i', 'q', 'B')):
+            try:
+                p = Parser()
+                with gen.jumping_clocks():
+                    p.feed(array.array(code, data[:len(data) // 2]))
+                    p.feed(memoryview(array.array(code, data[len(data) // 2:])) if code == 'B' else
+                           array.array(code, data[len(data) // 2:]))
+                got = list(p)
+            except Exception as exc:
+                ctx.check('no exception', False, f'array-{code}:{type(exc).__name__}', case, str(exc))
+                return None
+            ctx.check('same result in two chunks with an abandoned loop', got == out3, f'array-{code}-differs', case,
+                      lambda: {'container': f'array({code!r})', 'got': [m.hex() for m in got][:8],
+                               'want': [m.hex() for m in out3][:8]})
     # fresh objects
     ids = {id(m) for m in outs[0]}
     ctx.check('messages are distinct objects', len(ids) == len(outs[0]), 'aliased', case, None)
@@ -142,7 +159,7 @@ def run(ctx):
     for j, s in enumerate(enum_strings(L)):
         if j % ctx.nshards != ctx.shard:
             continue
-        msgs = judge_stream(ctx, list(s), 'enum')
+        msgs = judge_stream(ctx, list(s), 'enum', arrays=(j % 6 == 0))
         n += 1
         if msgs is not None:
             shapes.add(tuple(m.type for m in msgs))
@@ -200,6 +217,41 @@ def run(ctx):
                             ctx.check('no exception', False, f'three-chunks:{type(exc).__name__}', case, str(exc))
                     ctx.nontrivial(('interrupted', tuple(data)))
                     n += 1
+    # two parsers alive at the same time, fed alternately: each sees only its own stream
+    if True:
+        pairs = 400 if ctx.tier == 'quick' else 20000
+        for j in range(pairs // ctx.nshards):
+            d1 = gen.random_stream(ctx.rng, ctx.rng.randrange(3, 40), 0.4)
+            d2 = gen.random_stream(ctx.rng, ctx.rng.randrange(3, 40), 0.4)
+            if j % 3 == 0:
+                d1 = [0xF0, 1, 2] + d1[:5] + [3, 0xF7]
+                d2 = [0xF0, 9] + d2[:4] + [8, 0xF7, 0x90, 1, 2]
+            case2 = {'kind': 'two-parsers', 'a': d1, 'b': d2}
+            try:
+                w1, w2 = mido.parse_all(d1), mido.parse_all(d2)
+                p1, p2 = Parser(), Parser()
+                g1, g2 = [], []
+                i1 = i2 = 0
+                while i1 < len(d1) or i2 < len(d2):
+                    k = ctx.rng.randrange(1, 4)
+                    if i1 < len(d1):
+                        p1.feed(bytes(d1[i1:i1 + k]))
+                        i1 += k
+                    if ctx.rng.random() < 0.5:
+                        g1.extend(p1)
+                    k = ctx.rng.randrange(1, 4)
+                    if i2 < len(d2):
+                        p2.feed(d2[i2:i2 + k])
+                        i2 += k
+                    g2.extend(p2)
+                g1.extend(p1)
+                ctx.check('two live parsers are independent', g1 == w1 and g2 == w2, 'parsers-share-state', case2,
+                          lambda: {'a_got': [m.hex() for m in g1][:6], 'a_want': [m.hex() for m in w1][:6],
+                                   'b_got': [m.hex() for m in g2][:6], 'b_want': [m.hex() for m in w2][:6]})
+            except Exception as exc:
+                ctx.check('no exception', False, f'two-parsers:{type(exc).__name__}', case2, str(exc))
+            ctx.nontrivial(('two', tuple(d1), tuple(d2)))
+            n += 1
     # size ladders: long runs of data bytes / long sysex (status bytes are rare here)
     sizes = [253, 254, 255, 256, 257, 1023, 1024, 1025, 4095, 4096, 4097, 65535, 65536, 65537, 70000]
     for si, ln in enumerate(sizes):
@@ -237,4 +289,7 @@ def run(ctx):
 
 
 def replay(ctx, case):
+    if case.get('kind') == 'two-parsers':
+        print('two-parsers cases are re-run from the seed by the whole check; inputs:', case['a'], case['b'])
+        return
     judge_stream(ctx, list(case['bytes']), case.get('via', 'replay'))
